@@ -844,7 +844,7 @@ def prop_entry(ch, ctx):
         tot = float(np.abs(want).sum())
         # entries that are, or within round-off of the code's own arithmetic may be, negligible negatives
         # (cleanup threshold of the code: -1e-16 * sum): region predicate `negl`
-        negligible = ((want < 0) & (want > -1e-15 * max(tot, 1e-300))) | ((want != fin) & (np.abs(want) <= 1e-14 * mag))
+        negligible = ((want < 0) & (want > -1e-15 * max(tot, 1e-300))) | ((mag > np.abs(fin)) & (np.abs(want) <= 1e-14 * mag))
         if t1 == 'S' and basis == 'wt':
             want = want / MW
         regf = f'kind={kk},basis={basis},ph={int(tagged)},tgt={t1},negl={int(negligible.any())}'
